@@ -92,6 +92,8 @@ pub struct Interp<'p> {
     tk: Tk,
     /// a nested loop hit LOOP_ITER_CAP (the run is discarded)
     pub loop_cap_hit: bool,
+    /// debugging aid: when `Some`, every node evaluation is recorded as a text line
+    pub trace: Option<Vec<String>>,
 }
 
 fn dedup_keep_order(v: &mut Vec<It>, x: It) {
@@ -124,6 +126,7 @@ impl<'p> Interp<'p> {
             ref_ids,
             tk: Tk::default(),
             loop_cap_hit: false,
+            trace: None,
         }
     }
 
@@ -283,6 +286,9 @@ impl<'p> Interp<'p> {
         let o = self.eval(i, &node.op, ins);
         for v in &o {
             self.tk.max_len = self.tk.max_len.max(v.len());
+        }
+        if let Some(t) = &mut self.trace {
+            t.push(format!("tick {} n{i} {}: {:?}", self.tick, node.op.name(), o));
         }
         self.tk.outs[i] = o;
     }
